@@ -431,6 +431,7 @@ fn check(case: &Case07, ctx: &mut Ctx) -> Verdict {
         }
         Case07::Flags(f) => {
             let ok = f.chars().all(|c| "smixq".contains(c));
+            ctx.obs.label("flags:any");
             ctx.obs.label(if ok { "flags:valid" } else { "flags:invalid" });
             let want = if ok { "accepted" } else { "InvalidFlags" };
             if got != want {
@@ -479,7 +480,7 @@ impl Prop for C07 {
     fn guards(&self) -> Vec<Guard> {
         let mut g: Vec<Guard> = PRODUCTIONS.iter().map(|p| Guard { label: format!("production:{p}"), of: "".into(), min_fraction: 1e-9 }).collect();
         g.push(Guard { label: "must-reject".into(), of: "".into(), min_fraction: 0.2 });
-        g.push(Guard { label: "flags:valid".into(), of: "".into(), min_fraction: 0.0001 });
+        g.push(Guard { label: "flags:valid".into(), of: "flags:any".into(), min_fraction: 0.1 });
         for l in ["backref-position:legal", "backref-position:group-still-open", "backref-position:group-not-there"] {
             g.push(Guard { label: l.into(), of: "".into(), min_fraction: 0.01 });
         }
